@@ -46,7 +46,7 @@ def gen_small(rng, tag):
     kind = rng.choice(["-exec", "-exec", "-execdir"])
     fixed = [rng.choice(["fx", "-v", "a b", "{}x", "--"]) for _ in range(rng.choice([0, 0, 1, 2]))]
     act = [kind, common.REC, tag] + fixed + ["{}", "+"]
-    shape = rng.choice(["plain", "after-test", "in-or", "quit", "two-actions", "negated", "with-depth", "maxdepth"])
+    shape = rng.choice(["plain", "after-test", "in-or", "quit", "two-actions", "negated", "with-depth", "maxdepth", "mindepth", "mindepth", "min-and-depth"])
     if shape == "plain":
         toks = act + ["-printf", "T:%p\\0"]
     elif shape == "after-test":
@@ -59,6 +59,11 @@ def gen_small(rng, tag):
         toks = act + [kind, common.REC, tag + "b", "second", "{}", "+", "-printf", "T:%p\\0"]
     elif shape == "negated":
         toks = ["!"] + act + ["-printf", "N:%p\\0", "-o", "-printf", "P:%p\\0"]
+    elif shape == "mindepth":
+        # entries that the walk produces but -mindepth hides must not blur the per-directory batches of -execdir
+        toks = ["-mindepth", str(rng.randint(1, 3))] + rng.choice([[], ["-type", "f"]]) + act
+    elif shape == "min-and-depth":
+        toks = ["-mindepth", str(rng.randint(1, 3)), "-depth"] + act
     elif shape == "with-depth":
         toks = ["-depth"] + act
     else:
@@ -173,6 +178,16 @@ def small_worker(job):
                 nodes = treegen.hostile_tree(rng, "r", max_nodes=15)
             elif rng.random() < 0.1:
                 nodes = [treegen.Node("r", "d")]
+            elif rng.random() < 0.3:
+                # sibling directories that hold only plain files, two levels
+                nodes = [treegen.Node("r", "d")]
+                for dn in rng.sample(["a", "b", "c", "d", "e"], rng.randint(2, 4)):
+                    nodes.append(treegen.Node("r/" + dn, "d"))
+                    for fn in rng.sample(["1", "2", "3", "x.txt"], rng.randint(1, 3)):
+                        nodes.append(treegen.Node("r/%s/%s" % (dn, fn), "f"))
+                    if rng.random() < 0.4:
+                        nodes.append(treegen.Node("r/%s/sub" % dn, "d"))
+                        nodes.append(treegen.Node("r/%s/sub/deep" % dn, "f"))
             else:
                 nodes = treegen.random_tree(rng, "r", max_nodes=rng.choice([5, 15, 40]), link_kinds=("file", "dangling"))
             try:
@@ -220,13 +235,14 @@ def small_worker(job):
 
 
 def big_worker(job):
-    idx, n, namelen, stack, env_kb, kind, seed, deep = job
+    idx, n, namelen, stack, env_kb, kind, seed, deep = job[:8]
+    ndirs_override = job[8] if len(job) > 8 else None
     st = Stats()
     rng = common.rng_for(seed, "C08b", idx)
     sb = common.mkscratch("C08big")
     try:
         nodes = [treegen.Node("r", "d")]
-        ndirs = max(1, n // 400)
+        ndirs = ndirs_override or max(1, n // 400)
         for d in range(ndirs):
             dp = "r/" + ("d%03d" % d)
             if deep:
@@ -300,13 +316,17 @@ def run(ctx):
         (2, 2000, 100, 1 * MIB, 100, "-execdir", ctx.seed, False),
         (3, 4000, 150, 8 * MIB, 1, "-exec", ctx.seed, True),
         (4, 2400, 200, 512 * KIB, 1, "-execdir", ctx.seed, True),
+        # -execdir with single directories that do NOT fit one command line (batches dispatched because they are full)
+        (5, 3000, 200, 512 * KIB, 1, "-execdir", ctx.seed, False, 2),
+        (6, 2400, 230, 512 * KIB, 30, "-execdir", ctx.seed, True, 1),
+        (7, 3000, 150, 1 * MIB, 1, "-execdir", ctx.seed, False, 1),
     ]
     if not ctx.quick:
-        k = 5
+        k = 8
         for nn in (10000, 40000):
             for stack in (512 * KIB, 1 * MIB, 8 * MIB, -1):
                 for kind in ("-exec", "-execdir"):
-                    big.append((k, nn, 100 + 35 * (k % 5), stack, [1, 60, 100][k % 3], kind, ctx.seed, k % 2 == 0))
+                    big.append((k, nn, 100 + 35 * (k % 5), stack, [1, 60, 100][k % 3], kind, ctx.seed, k % 2 == 0, [None, 1, 3][k % 3]))
                     k += 1
     ctx.pmap(big_worker, big, nproc=6)
     for key in ("actions_with_several_batches", "runs_with_quit", "runs_with_failing_invocation", "missing_command_runs",
